@@ -230,6 +230,15 @@ def generate(model: Model):
     except Exception:  # noqa: BLE001
         pass
     try:
+        mod, tree = _fresh("_expr")
+        for fn in (x for x in tree.body if isinstance(x, ast.FunctionDef) and x.name == "_is_row_aligned_input"):
+            for st in (x for x in fn.body if isinstance(x, ast.Return) and "divisions" in ast.unparse(x)):
+                yield "mutant", "revert:head-tail-single-partition-row-aligned", "R01c", mod.rel, _splice(mod.source, st.value, "False")
+            for st in (x for x in fn.body if isinstance(x, ast.If) and isinstance(x.test, ast.UnaryOp)):
+                yield "mutant", "flip:row-aligned-input-polarity", "R01c", mod.rel, _splice(mod.source, st.test, ast.unparse(st.test.operand))
+    except Exception:  # noqa: BLE001
+        pass
+    try:
         mod, tree = _fresh("_merge")
         for c in (x for x in ast.walk(tree) if isinstance(x, ast.UnaryOp) and isinstance(x.op, ast.Not) and "leftsemi" in ast.unparse(x) and "broadcast_side" in ast.unparse(x)):
             yield "mutant", "revert:leftsemi-left-broadcast", "R10f", mod.rel, _splice(mod.source, c, "True")
